@@ -151,11 +151,16 @@ def per_token_cases(log, spec, d, plain, calls):
 
 def run_op_id(label, thunk, opid):
     B.new_epoch()
-    s0 = B.ev("OP_BEGIN", op=label, opid=opid)
+    req = "req-%d" % next(B._ids)
+    rtok = B.REQ.set(req)
+    s0 = B.ev("OP_BEGIN", op=label, opid=opid, req=req)
     me = threading.get_ident()
     probes.CURRENT_OPS[me] = (label, time.monotonic())
     try:
-        val = thunk()
+        try:
+            val = thunk()
+        finally:
+            B.REQ.reset(rtok)
     except BaseException as e:  # noqa: BLE001
         probes.CURRENT_OPS.pop(me, None)
         B.ev("OP_END", op=label, ok=False, exc=type(e).__name__, begin=s0, opid=opid)
